@@ -29,26 +29,22 @@ const codabarAB = "0123456789-$:/.+ABCD"
 
 func (c08) Gen(tier string, seed int64) []fw.Unit {
 	var us []fw.Unit
-	cbLen, dLen := int64(4), int64(5)
+	cbLen, dLen := int64(5), int64(6)
 	if tier == "thorough" {
 		cbLen, dLen = 6, 7
 	}
 	for a := int64(0); a < 20; a++ {
-		if tier == "thorough" {
-			for b := int64(0); b < 20; b++ {
-				us = append(us, fw.U("codabar.exh", nil, "exhaustive", a, b, cbLen))
-			}
-		} else {
-			us = append(us, fw.U("codabar.exh", nil, "exhaustive", a, -1, cbLen))
+		for b := int64(0); b < 20; b++ {
+			us = append(us, fw.U("codabar.exh", nil, "exhaustive", a, b, cbLen))
 		}
 	}
 	for d := int64(0); d < 10; d++ {
 		us = append(us, fw.U("2of5.exh", nil, "exhaustive", d, dLen))
 	}
 	r := rngFor(seed, "C08")
-	n := 16
+	n := 60
 	if tier == "thorough" {
-		n = 160
+		n = 400
 	}
 	for i := 0; i < n; i++ {
 		us = append(us, fw.U("c08.random", nil, "random", r.Int63(), 500))
